@@ -168,6 +168,17 @@ def handle (line : Json) : Json :=
     let path := "parse/" ++ (match m with | .refused => "refused-entities" | .notThisClass => "other-root" | .raised => "raised" | .obj _ => "object")
     Json.mkObj [("model", resJ m), ("path", path), ("branches", jstrs br),
       ("spec_model", specDoc E cls dtd x m), ("spec_impl", specDoc E cls dtd x (jRes impl))]
+  | "xsdorder" =>
+    let cls := natD c "cls"
+    let x := jNode ((obj? c "tree").getD Json.null)
+    let m := modelXsdOrder E cls x
+    let iv : Option (List QName) := if strD impl "r" == "order" then some ((arrD impl "order").map jQName) else none
+    let toJ : Option (List QName) → Json := fun
+      | some l => Json.mkObj [("r", "order"), ("order", jarr (l.map qnameJ))]
+      | none => Json.mkObj [("r", "raised")]
+    Json.mkObj [("model", toJ m), ("path", if specXsdOrder x m then "xsdorder/kept" else "xsdorder/reordered"),
+      ("branches", jstrs (if (T cls).order.isEmpty then ["order.implicit"] else ["order.explicit"])),
+      ("spec_model", specXsdOrder x m), ("spec_impl", specXsdOrder x iv)]
   | "table" =>
     -- diagnostics for a broken table lemma: ids of the classes that are not well-formed
     let bad := (List.range tableArr.size).filter fun k =>
